@@ -68,8 +68,9 @@ func (c *exitAfterDeferChecker) VisitFuncDecl(fn *ast.FuncDecl) {
 				return true
 			}
 			if deferStmt != nil {
-				switch qualifiedName(n.Fun) {
-				case "log.Fatal", "log.Fatalf", "log.Fatalln", "os.Exit":
+				info := c.ctx.TypesInfo
+				if isPkgFunc(info, n.Fun, "log", "Fatal") || isPkgFunc(info, n.Fun, "log", "Fatalf") ||
+					isPkgFunc(info, n.Fun, "log", "Fatalln") || isPkgFunc(info, n.Fun, "os", "Exit") {
 					c.warn(n, deferStmt)
 					return false
 				}
